@@ -202,6 +202,17 @@ def worker(args):
     res = None
     try:
         mod = load_prop(args.worker)
+        # regression corpus: cases (seed, replay record) that once showed a defect are replayed in every run
+        for k, (rseed, rrep) in enumerate(getattr(mod, 'REGRESSIONS', [])):
+            if k % args.nshards != args.shard:
+                continue
+            old = ctx.seed
+            ctx.seed = rseed
+            try:
+                mod.replay(ctx, dict(rrep, _seed=rseed))
+            finally:
+                ctx.seed = old
+            ctx.count('regression_cases_replayed')
         mod.run(ctx)
         res = ctx.result()
     except BaseException:
@@ -408,7 +419,7 @@ def replay(args):
         w = json.load(f)
     pid = args.prop or w['property']
     mod = load_prop(pid)
-    ctx = Ctx(pid, w.get('tier', 'quick'), w.get('seed', 0), 0, 1, 600)
+    ctx = Ctx(pid, w.get('tier', 'quick'), w.get('replay', {}).get('_seed', w.get('seed', 0)), 0, 1, 600)
     ctx.replaying = True
     mod.replay(ctx, w['replay'])
     known = {(k['property'], k['key']) for k in load_known() if k.get('status') == 'known'}
